@@ -137,10 +137,17 @@ extern "C" void vp_q_set_capacity(queue_t* q, long c) { q->set_capacity(c); }
 extern "C" long vp_q_capacity(queue_t* q) { return q->capacity(); }
 // the wait predicate handed to r1::wait_bounded_queue_monitor (true = keep waiting); called by the harness stub of that function
 extern "C" int vp_call_pred(tbb::detail::d1::delegate_base* p) { return (*p)(); }
-#if REALCPP
-// the selection predicate that the real notify_bounded_queue_monitor hands to concurrent_monitor::notify, applied to a sleeper's context
+#if REALCPP == 1
+// boundary variant 1 (names internal types: a rename of predicate_leq breaks the build): concurrent_monitor_base::wait/notify/abort_all cut
 extern "C" int vp_call_leq(const tbb::detail::r1::predicate_leq* p, unsigned long ctx) { return (*p)(ctx); }
 extern "C" unsigned long vp_node_ctx(tbb::detail::r1::sleep_node<std::uintptr_t>* n) { return n->my_context; }
+#elif REALCPP == 2
+// boundary variant 2: the whole concurrent_monitor_base (wait set, epoch, predicate evaluation on node contexts, abort flags) and sleep_node are
+// real; only binary_semaphore::P/V and the bounded spin of concurrent_monitor_mutex::lock are cut. No type of concurrent_bounded_queue.cpp is named.
+extern "C" unsigned long vp_mon_waiters(queue_t* q, int i) { return q->my_monitors[i].my_waitset.size(); }
+extern "C" int vp_mon_closed(queue_t* q, int i) { auto& w = q->my_monitors[i].my_waitset; return w.head.next == &w.head && w.head.prev == &w.head; }
+extern "C" int vp_mon_mutex_free(queue_t* q, int i) { return q->my_monitors[i].my_mutex.my_flag.load(std::memory_order_relaxed) == 0 && q->my_monitors[i].my_mutex.my_waiters.load(std::memory_order_relaxed) == 0; }
+extern "C" int vp_cmm_is_free(tbb::detail::r1::concurrent_monitor_mutex* mx) { return mx->my_flag.load(std::memory_order_relaxed) == 0; }
 #endif
 #endif
 extern "C" void vp_q_push(queue_t* q, unsigned val) { elem_t e; e.v = val; q->push(e); }
